@@ -605,8 +605,60 @@ Definition dev_del (d : device) (oid : Z) (e : elem) : res device :=
   | Some _ => update_object_list d (del_obj (d_objs d) oid) (fun v => arr_remove v e)
   end.
 
+(* ---------- the array index as it travels.  propertyArrayIndex is an OPTIONAL context-tagged Unsigned
+   (apdu.py ReadPropertyRequest / WritePropertyRequest: context 2; PropertyReference: context 1).  The element is either
+   absent from the request (None) or a tag with data octets; Unsigned.decode (primitivedata.py 671-683) refuses empty
+   data (InvalidTag -> Reject 4, raised while the request is decoded, before any service code runs) and otherwise folds
+   ALL the octets big-endian, whatever their number and value: no octet string stands for "no index".
+   Unsigned.encode (660-669) is struct.pack('>L') (struct.error outside 0..2^32-1) without its leading zero octets. *)
+Fixpoint be_value (acc : Z) (bs : list Z) : Z :=
+  match bs with [] => acc | b :: r => be_value (acc * 256 + b) r end.
+Definition wire_index (w : option (list Z)) : res (option Z) :=
+  match w with
+  | None => Ok None
+  | Some [] => Err InvalidTag
+  | Some bs => Ok (Some (be_value 0 bs))
+  end.
+Fixpoint strip_zeros (bs : list Z) : list Z :=
+  match bs with
+  | b :: ((_ :: _) as r) => if b =? 0 then strip_zeros r else bs
+  | _ => bs
+  end.
+Definition enc_index (i : Z) : res (list Z) :=
+  if (i <? 0) || (4294967295 <? i) then Err StructErr
+  else Ok (strip_zeros [(i / 16777216) mod 256; (i / 65536) mod 256; (i / 256) mod 256; i mod 256]).
+
+(* requests with the index as octets *)
+Inductive wop : Set :=
+| WRead (oid pid : Z) (idx : option (list Z))
+| WWrite (oid pid : Z) (idx : option (list Z)) (prio : option Z) (w : wire)
+| WRpm (specs : list (Z * list (Z * option (list Z)))).
+Fixpoint wire_refs (l : list (Z * option (list Z))) : res (list (Z * option Z)) :=
+  match l with
+  | [] => Ok []
+  | (pid, wi) :: r => do i <- wire_index wi; do rest <- wire_refs r; Ok ((pid, i) :: rest)
+  end.
+Fixpoint wire_specs (l : list (Z * list (Z * option (list Z)))) : res (list (Z * list (Z * option Z))) :=
+  match l with
+  | [] => Ok []
+  | (oid, refs) :: r => do a <- wire_refs refs; do rest <- wire_specs r; Ok ((oid, a) :: rest)
+  end.
+Definition op_of_wire (o : wop) : res op :=
+  match o with
+  | WRead oid pid wi => do i <- wire_index wi; Ok (ORead oid pid i)
+  | WWrite oid pid wi prio w => do i <- wire_index wi; Ok (OWrite oid pid i prio w)
+  | WRpm specs => do s <- wire_specs specs; Ok (ORpm s)
+  end.
+(* a request that does not decode is answered by the stack (map_exn), the service is never called *)
+Definition step_wire (d : device) (o : wop) : reply * device :=
+  match op_of_wire o with
+  | Ok o' => step d o'
+  | Err e => (map_exn (Py e), d)
+  end.
+
 Inductive event : Set :=
 | EReq (o : op)
+| EWire (o : wop)
 | EAdd (oid : Z) (ob : object) (e : elem)
 | EDel (oid : Z) (e : elem).
 
@@ -628,6 +680,7 @@ Fixpoint run_ev (d : device) (evs : list event) : list Z :=
   match evs with
   | [] => [-7; digest (c_device d)]
   | EReq o :: r => let (rep, d') := step d o in c_reply rep ++ run_ev d' r
+  | EWire o :: r => let (rep, d') := step_wire d o in c_reply rep ++ run_ev d' r
   | EAdd oid ob e :: r =>
       match dev_add d oid ob e with Ok d' => 6 :: run_ev d' r | Err x => [7; err_code x] end
   | EDel oid e :: r =>
